@@ -89,9 +89,13 @@ func (s *state) walk(node ast.Node) {
 	case *ast.HeaderParamNode:
 		// TODO: Validate param types.
 	case *ast.ListNode:
+		// a list of commands is a block: {let} variables defined in it go out of
+		// scope at its end (the same rule the data ref checker applies).
+		s.context.push()
 		for _, node := range node.Nodes {
 			s.walk(node)
 		}
+		s.context.pop()
 
 		// Output nodes ----------
 	case *ast.PrintNode:
